@@ -119,6 +119,18 @@ func runCheck(opts checkOpts) int {
 			sel = append(sel, o)
 		}
 	}
+	// the axiom set must not be refutable, alone or together with ground terms that apply every
+	// prelude function to corner arguments (-1, 0, 1, empty, nil): a range axiom stated for all
+	// arguments that contradicts a constructor axiom at an argument no execution produces is an
+	// inconsistency all the same, and a solver may use it
+	for _, native := range []bool{false, true} {
+		name := "prelude/cover/consistency-probed"
+		if native {
+			name += "-native-strings"
+		}
+		sel = append(sel, &Obligation{Name: name, Fn: "prelude", Kind: "cover", Expect: "sat", Goal: "prelude axioms satisfiable together with corner-case ground terms",
+			Script: p.prelude(native) + preludeProbe(p.prelude(native)) + "(check-sat)\n"})
+	}
 	if opts.tier == "thorough" {
 		// the axiom set alone must not be refutable (a contradictory prelude would prove everything)
 		for _, native := range []bool{false, true} {
@@ -469,3 +481,101 @@ func (p *Program) assumptions(prop string, fns []string) []string {
 }
 
 var _ = strings.TrimSpace
+
+// preludeProbe: ground terms applying every function declared in the prelude
+// to corner arguments, each bound to a fresh constant so that the solver's
+// pattern-based instantiation fires on them.
+func preludeProbe(prelude string) string {
+	re := regexp.MustCompile(`(?m)^\(declare-fun ([A-Za-z_0-9]+) \(([^()]*(?:\([^()]*\)[^()]*)*)\) ([A-Za-z]+|\(Array [^()]*(?:\([^()]*\))?[^()]*\))\)$`)
+	var b strings.Builder
+	b.WriteString("(declare-const pr_s1 Str)\n(declare-const pr_s2 Str)\n(declare-const pr_b1 Bytes)\n(declare-const pr_q1 SSeq)\n(declare-const pr_e1 Err)\n(declare-const pr_a1 Any)\n(declare-const pr_i1 Int)\n")
+	vals := map[string][]string{
+		"Int":   {"(- 1)", "0", "1", "pr_i1", "33"},
+		"Str":   {"pr_s1", "lit_empty", "lit_space", "pr_s2"},
+		"Bytes": {"pr_b1", "f_emptyB"},
+		"SSeq":  {"pr_q1"},
+		"Err":   {"pr_e1", "nilErr"},
+		"Any":   {"pr_a1"},
+		"Bool":  {"true", "false"},
+	}
+	k := 0
+	keepDeclared := map[string]bool{}
+	for _, m := range re.FindAllStringSubmatch(prelude, -1) {
+		name, ret := m[1], m[3]
+		var sorts []string
+		for _, f := range splitSorts(m[2]) {
+			sorts = append(sorts, f)
+		}
+		ok := true
+		for _, srt := range sorts {
+			if vals[srt] == nil {
+				ok = false
+			}
+		}
+		if !ok || len(sorts) == 0 {
+			continue
+		}
+		// all combinations, capped
+		idx := make([]int, len(sorts))
+		for n := 0; n < 48; n++ {
+			args := make([]string, len(sorts))
+			for i, srt := range sorts {
+				args[i] = vals[srt][idx[i]]
+			}
+			k++
+			// handed to an uninterpreted predicate so that preprocessing cannot eliminate the term
+			if !keepDeclared[ret] {
+				keepDeclared[ret] = true
+				fmt.Fprintf(&b, "(declare-fun pr_keep_%s (%s) Bool)\n", smtName(ret), ret)
+			}
+			fmt.Fprintf(&b, "(assert (pr_keep_%s (%s %s))) ; pr_t%d\n", smtName(ret), name, strings.Join(args, " "), k)
+			// next combination
+			j := 0
+			for j < len(idx) {
+				idx[j]++
+				if idx[j] < len(vals[sorts[j]]) {
+					break
+				}
+				idx[j] = 0
+				j++
+			}
+			if j == len(idx) {
+				break
+			}
+		}
+	}
+	return b.String()
+}
+
+func splitSorts(s string) []string {
+	var out []string
+	depth, start := 0, -1
+	for i := 0; i < len(s); i++ {
+		switch s[i] {
+		case '(':
+			if depth == 0 && start < 0 {
+				start = i
+			}
+			depth++
+		case ')':
+			depth--
+			if depth == 0 {
+				out = append(out, s[start:i+1])
+				start = -1
+			}
+		case ' ':
+			if depth == 0 && start >= 0 {
+				out = append(out, s[start:i])
+				start = -1
+			}
+		default:
+			if start < 0 {
+				start = i
+			}
+		}
+	}
+	if start >= 0 {
+		out = append(out, s[start:])
+	}
+	return out
+}
